@@ -500,6 +500,13 @@ func genC11(r *Rng) *Plan {
 		}
 		cfg.Routes = append(cfg.Routes, routeFor(2, o2))
 	}
+	overlap := second && r.Chance(1, 3)
+	if overlap {
+		// the second upstream serves many hosts through a pattern that the first upstream's host name matches too (the exact
+		// route wins for that name); browsers send the cookie to every host of the domain
+		cfg.Routes[1] = Route{Service: "many", Type: "rewrite", From: `^(.*)\.sso\.sim$`, To: "$1.manyback.sim", Backend: []string{"pay.manyback.sim", "hr.manyback.sim"}, Options: cfg.Routes[1].Options}
+		cfg.CookieDomain = RootDomain
+	}
 	var users []UserSpec
 	picked := map[string]bool{}
 	for len(users) < 4 {
@@ -542,7 +549,13 @@ func genC11(r *Rng) *Plan {
 		if r.Chance(1, 2) {
 			p.Steps = append(p.Steps, Step{Op: "get", B: b, Host: host, Target: "/refresh-due", Dt: cfg.TokenTTL + 3*time.Second})
 		}
-		if second && r.Chance(1, 2) {
+		if overlap {
+			// the session obtained on the first upstream, carried to a host of the other one; and a sign-in there
+			p.Steps = append(p.Steps, Step{Op: "get", B: b, Host: r.Pick("pay.sso.sim", "hr.sso.sim"), Target: "/carried-over", Dt: 2 * time.Second})
+			if r.Chance(1, 2) {
+				p.Steps = append(p.Steps, Step{Op: "login", B: b + "2", User: u.Email, Host: "pay.sso.sim", Target: "/"})
+			}
+		} else if second && r.Chance(1, 2) {
 			b2 := b + "2"
 			p.Steps = append(p.Steps, Step{Op: "login", B: b2, User: u.Email, Host: cfg.Routes[1].From, Target: "/"})
 			p.Steps = append(p.Steps, Step{Op: "get", B: b2, Host: cfg.Routes[1].From, Target: "/no-check-due", Dt: 2 * time.Second})
